@@ -882,6 +882,7 @@ R"(
     );
 
     inline void switch_context(thread* from, thread* to) {
+        VERIF_POINT(P_SWITCH_BEFORE_SAVE);
         ASAN_SWITCH(to);
         prepare_switch(from, to);
         TSAN_SWITCH(to);
@@ -897,6 +898,7 @@ R"(
 
     inline void switch_context_defer(thread* from, thread* to,
                                      void (*defer)(void*), void* arg) {
+        VERIF_POINT(P_SWITCH_BEFORE_SAVE);
         ASAN_SWITCH(to);
         prepare_switch(from, to);
         TSAN_SWITCH(to);
